@@ -764,6 +764,151 @@ explore_hop(const char *name, hoparg *a)
 	vx_explore(&c, NULL);
 }
 
+// ---- two peers arrive at the same moment through different endpoints ---------------------------------
+// A (PAIR v0 / v1) has two listeners, or a listener and a dialer of its own; two other sockets
+// connect through them from two threads at once.  Every schedule within the budget: at no point of
+// the event log may A have two pipes that both reached ADD_POST and are both alive; afterwards at
+// most one of the two peers still has its connection, a message sent by that one arrives, and a
+// message accepted from the other one is never delivered.
+static int        tc_live, tc_maxlive;
+static nng_socket tc_b[2];
+static const char *tc_url[2];
+static uint32_t tc_posted[3][16]; // pipe ids past ADD_POST and not yet removed, per socket
+static int
+tc_track(int k, nng_pipe p, nng_pipe_ev ev)
+{
+	// REM_POST also comes for a pipe that was refused before ADD_POST: count per pipe id
+	int n = 0;
+	for (int i = 0; i < 16; i++) {
+		if (ev == NNG_PIPE_EV_REM_POST && tc_posted[k][i] == p.id)
+			tc_posted[k][i] = 0;
+		else if (ev == NNG_PIPE_EV_ADD_POST && tc_posted[k][i] == 0) {
+			tc_posted[k][i] = p.id;
+			ev              = NNG_PIPE_EV_NUM; // stored once
+		}
+		n += tc_posted[k][i] != 0;
+	}
+	return n;
+}
+static void
+tc_notify(nng_pipe p, nng_pipe_ev ev, void *arg)
+{
+	(void) arg;
+	tc_live = tc_track(2, p, ev);
+	if (tc_live > tc_maxlive)
+		tc_maxlive = tc_live;
+}
+static int tc_blive[2];
+static void
+tc_bnotify(nng_pipe p, nng_pipe_ev ev, void *arg)
+{
+	int i       = (int) (intptr_t) arg;
+	tc_blive[i] = tc_track(i, p, ev);
+}
+static void *
+tc_dial(void *arg)
+{
+	int i = (int) (intptr_t) arg;
+	(void) nng_dial(tc_b[i], tc_url[i], NULL, 0);
+	return NULL;
+}
+static void *
+tc_listen(void *arg)
+{
+	// the peer listens, A's own dialer (already created, not started) connects to it
+	nng_dialer *d = arg;
+	(void) nng_dialer_start(*d, 0);
+	return NULL;
+}
+static void
+run_twoconn(void *argp)
+{
+	int proto = (int) (intptr_t) argp & 1, mixed = ((int) (intptr_t) argp >> 1) & 1;
+	int (*op)(nng_socket *) = proto ? nng_pair1_open : nng_pair0_open;
+	nng_socket a;
+	nng_dialer ad;
+	vh_init(0);
+	tc_live = tc_maxlive = 0;
+	tc_blive[0] = tc_blive[1] = 0;
+	memset(tc_posted, 0, sizeof(tc_posted));
+	VH_OK(op(&a));
+	VH_OK(nng_pipe_notify(a, NNG_PIPE_EV_ADD_POST, tc_notify, NULL));
+	VH_OK(nng_pipe_notify(a, NNG_PIPE_EV_REM_POST, tc_notify, NULL));
+	VH_OK(nng_socket_set_ms(a, NNG_OPT_RECVTIMEO, 20));
+	tc_url[0] = "inproc://c08tc0";
+	tc_url[1] = "inproc://c08tc1";
+	VH_OK(nng_listen(a, tc_url[0], NULL, 0));
+	for (int i = 0; i < 2; i++) {
+		VH_OK(op(&tc_b[i]));
+		VH_OK(nng_pipe_notify(tc_b[i], NNG_PIPE_EV_ADD_POST, tc_bnotify, (void *) (intptr_t) i));
+		VH_OK(nng_pipe_notify(tc_b[i], NNG_PIPE_EV_REM_POST, tc_bnotify, (void *) (intptr_t) i));
+		VH_OK(nng_socket_set_ms(tc_b[i], NNG_OPT_RECONNMINT, 500));
+		VH_OK(nng_socket_set_ms(tc_b[i], NNG_OPT_RECONNMAXT, 500));
+		VH_OK(nng_socket_set_ms(tc_b[i], NNG_OPT_SENDTIMEO, 20));
+	}
+	if (mixed) {
+		VH_OK(nng_listen(tc_b[1], tc_url[1], NULL, 0));
+		VH_OK(nng_socket_set_ms(a, NNG_OPT_RECONNMINT, 500));
+		VH_OK(nng_socket_set_ms(a, NNG_OPT_RECONNMAXT, 500));
+		VH_OK(nng_dialer_create(&ad, a, tc_url[1]));
+	} else
+		VH_OK(nng_listen(a, tc_url[1], NULL, 0));
+	vs_settle();
+	pthread_t t0, t1;
+	vs_window(1);
+	pthread_create(&t0, NULL, tc_dial, (void *) 0);
+	if (mixed)
+		pthread_create(&t1, NULL, tc_listen, &ad);
+	else
+		pthread_create(&t1, NULL, tc_dial, (void *) 1);
+	pthread_join(t0, NULL);
+	pthread_join(t1, NULL);
+	vs_settle();
+	vs_window(0);
+	vs_sleep(30);
+	vs_settle();
+	if (tc_maxlive > 1 || tc_live > 1)
+		vs_fail("C08:second-peer",
+		    "%s with %s: two peers connected at the same moment and %d pipes of the "
+		    "socket were past ADD_POST at the same time (now %d)",
+		    proto ? "pair1" : "pair0", mixed ? "a listener and a dialer" : "two listeners",
+		    tc_maxlive, tc_live);
+	if (tc_blive[0] > 0 && tc_blive[1] > 0)
+		vs_fail("C08:second-peer",
+		    "%s: both peers still hold a connection 30 ms after connecting at the same "
+		    "moment",
+		    proto ? "pair1" : "pair0");
+	// what the surviving peer sends arrives; what the other one gets accepted must not
+	int sent[2], got[2] = { 0, 0 };
+	for (int i = 0; i < 2; i++) {
+		char t[3] = { 'b', (char) ('0' + i), 0 };
+		sent[i]   = nng_send(tc_b[i], t, 3, 0) == 0;
+	}
+	vs_settle();
+	for (int k = 0; k < 3; k++) {
+		char   buf[8];
+		size_t n = sizeof(buf);
+		if (nng_recv(a, buf, &n, 0) != 0)
+			break;
+		if (n == 3 && buf[0] == 'b' && (buf[1] == '0' || buf[1] == '1'))
+			got[buf[1] - '0']++;
+	}
+	if (got[0] + got[1] > 1 || got[0] > 1 || got[1] > 1)
+		vs_fail("C08:second-peer", "messages of both peers were delivered (%d, %d)", got[0],
+		    got[1]);
+	for (int i = 0; i < 2; i++)
+		if (tc_blive[i] > 0 && sent[i] && !got[i])
+			vs_fail("C08:lost",
+			    "%s: peer %d holds the connection, its message was accepted and never "
+			    "delivered",
+			    proto ? "pair1" : "pair0", i);
+	vs_outcome("live=%d/%d,%d got=%d,%d", tc_live, tc_blive[0], tc_blive[1], got[0], got[1]);
+	nng_socket_close(tc_b[0]);
+	nng_socket_close(tc_b[1]);
+	nng_socket_close(a);
+	vh_fini();
+}
+
 int
 main(int argc, char **argv)
 {
@@ -869,6 +1014,25 @@ main(int argc, char **argv)
 				orc_explore_tiers(&OR[i]);
 			else
 				orc_explore(&OR[i], 1, 2, 2); // quick: pair1 gets the resize variant
+	}
+	for (int v = 0; v < 4; v++) {
+		static const char *TN[] = { "race-two-connects-pair0", "race-two-connects-pair1",
+			"race-two-connects-pair0-mixed", "race-two-connects-pair1-mixed" };
+		vx_cfg c;
+		memset(&c, 0, sizeof(c));
+		c.prop               = "C08";
+		c.scenario           = TN[v];
+		c.run                = run_twoconn;
+		c.arg                = (void *) (intptr_t) v;
+		// (two deviations are needed to put both pipe starts inside each other: quick does
+		// that for pair0 with two listeners, one deviation for the other three)
+		int two              = vx_is_thorough() || v == 0;
+		c.budget[VB_PREEMPT] = vx_is_thorough() ? 2 : 1;
+		c.budget[VB_SWITCH]  = two ? 2 : 1;
+		c.budget[VB_ENV]     = -1;
+		c.total              = two ? 2 : 1;
+		c.deadline_s         = vx_is_thorough() ? 120 : 15;
+		vx_explore(&c, NULL);
 	}
 	SR_PROP = "C08";
 	sr_explore("C08", 0, vx_is_thorough());
